@@ -469,6 +469,23 @@ def run_in_process(jt, tally, stats, rng, tier, seen=None):
         evaluate_all(shared, early, True, "off-again", "config.update", tally, record, stats)
         set_switch(jt, rng, False, record)
         evaluate_all(shared, late, False, "on-again", "config.update", tally, record, stats)
+        # the switch is process-wide: set in one thread, observed by calls made in another (both directions)
+        import threading
+
+        def in_thread(fn_):
+            box = []
+            th = threading.Thread(target=lambda: box.append(fn_()))
+            th.start()
+            th.join()
+            return box
+
+        set_switch(jt, rng, True, record)
+        in_thread(lambda: evaluate_all(shared, late, True, "off-set-in-main-thread:called-in-worker-thread", "config.update", tally, record, stats))
+        in_thread(lambda: set_switch(jt, rng, False, record))
+        evaluate_all(shared, late, False, "on-set-in-worker-thread:called-in-main-thread", "config.update", tally, record, stats)
+        in_thread(lambda: set_switch(jt, rng, True, record))
+        in_thread(lambda: evaluate_all(shared, early, True, "off-set-in-worker-thread:called-in-another-worker-thread", "config.update", tally, record, stats))
+        set_switch(jt, rng, False, record)
         # random toggle sequences
         n = N_RANDOM_TOGGLES[tier]
         pools = [("decorated-while-off", early), ("decorated-while-on", late)]
